@@ -242,16 +242,39 @@ func run(dir string, s Scenario, args []string, extraEnv ...string) cli.Res {
 
 // ---- probes -----------------------------------------------------------------------------------------------------------
 
+// runProbe: probes only read, so one that hit the harness's time cap (a loaded machine) is simply made again, once.
+func runProbe(dir string, s Scenario, args []string) cli.Res {
+	res := run(dir, s, args)
+	if res.TimedOut {
+		res = run(dir, s, args)
+	}
+	return res
+}
+
 func probeStart(dir string, s Scenario) cli.Res {
-	return run(dir, s, []string{"SELECT 1 + 1 AS x", "-o", "json"})
+	return runProbe(dir, s, []string{"SELECT 1 + 1 AS x", "-o", "json"})
 }
 
 func probeFile(dir string, s Scenario) cli.Res {
-	return run(dir, s, []string{"SELECT t.a AS a FROM t.json t", "-o", "json"})
+	return runProbe(dir, s, []string{"SELECT t.a AS a FROM t.json t", "-o", "json"})
 }
 
 func probeVersion(dir string, s Scenario, db string) cli.Res {
-	return run(dir, s, []string{"SELECT v.version AS version FROM " + db + ".version v", "-o", "json"})
+	return runProbe(dir, s, []string{"SELECT v.version AS version FROM " + db + ".version v", "-o", "json"})
+}
+
+// refVersion is probeVersion for the reference run: the crash cases are judged against it, so "does not resolve" is only
+// believed when it is a reported error that a second probe repeats word for word.
+func refVersion(dir string, s Scenario, db string) (string, error) {
+	res := probeVersion(dir, s, db)
+	if v, ok := versionOf(res); ok {
+		return v, nil
+	}
+	again := probeVersion(dir, s, db)
+	if cleanError(res) && cleanError(again) && res.ErrLine() == again.ErrLine() {
+		return "", nil
+	}
+	return "", fmt.Errorf("harness: unstable reference probe of %s: first %s; again %s", db, res.Brief(), again.Brief())
 }
 
 // versionOf decodes the answer of probeVersion: the name of the version directory the plugin binary ran from.
@@ -356,12 +379,23 @@ func reference(s Scenario) *ref {
 		return r
 	}
 	defer os.RemoveAll(dir)
-	r.StartBefore = startOK(probeStart(dir, s))
+	if first := probeStart(dir, s); startOK(first) {
+		r.StartBefore = true
+	} else if again := probeStart(dir, s); !cleanError(first) || !cleanError(again) || first.ErrLine() != again.ErrLine() {
+		r.Err = "harness: unstable reference start probe: first " + first.Brief() + "; again " + again.Brief()
+		return r
+	}
 	if s.DB != "" {
-		r.MydbBefore, _ = versionOf(probeVersion(dir, s, "mydb"))
+		if r.MydbBefore, err = refVersion(dir, s, "mydb"); err != nil {
+			r.Err = err.Error()
+			return r
+		}
 	}
 	if len(s.Installed) > 0 {
-		r.TestdbBefore, _ = versionOf(probeVersion(dir, s, "testdb"))
+		if r.TestdbBefore, err = refVersion(dir, s, "testdb"); err != nil {
+			r.Err = err.Error()
+			return r
+		}
 	}
 	logFile := filepath.Join(dir, "crash.log")
 	res := run(dir, s, s.args(), "VERIF_CRASH_LOG="+logFile)
@@ -388,9 +422,14 @@ func reference(s Scenario) *ref {
 		}
 	}
 	if s.DB != "" {
-		r.MydbAfter, _ = versionOf(probeVersion(dir, s, "mydb"))
+		if r.MydbAfter, err = refVersion(dir, s, "mydb"); err != nil {
+			r.Err = err.Error()
+			return r
+		}
 	}
-	r.TestdbAfter, _ = versionOf(probeVersion(dir, s, "testdb"))
+	if r.TestdbAfter, err = refVersion(dir, s, "testdb"); err != nil {
+		r.Err = err.Error()
+	}
 	return r
 }
 
